@@ -35,6 +35,24 @@ def main():
             err = [p for p, v in res.items() if v["rc"] == 2]
             print(f"{sid:12s} fires: {' '.join(fired) or '-'}" + (f"   ANALYSIS-ERROR: {' '.join(err)}" if err else ""), flush=True)
     json.dump(out, open(os.path.join(root, "MATRIX.json"), "w"), indent=1, sort_keys=True)
+    # human-readable table
+    import re
+    rows = ["| seeded change | what it does (author's title) | checks that report it (property#clauses) |", "|---|---|---|"]
+    own = 0
+    for sid in sorted(out):
+        try:
+            notes = open(os.path.join(root, sid, "notes.md")).read().strip().splitlines()
+            title = [l for l in notes if l.strip()][0].lstrip("# ").strip()
+            title = re.sub(r"^C\d+\s*/?\s*[Cc]hange\s*\d\s*[—:-]\s*", "", title)[:120]
+        except Exception:
+            title = ""
+        fired = [f"{p}#{','.join(x.split('#')[1] for x in v['rules'])}" for p, v in sorted(out[sid].items()) if v["rc"] == 1]
+        if any(f.startswith(sid.split("-")[0] + "#") for f in fired):
+            own += 1
+        rows.append(f"| {sid} | {title} | {' '.join(fired) or '**missed**'} |")
+    rows.append("")
+    rows.append(f"{own} of {len(out)} seeded changes are reported by the check of the property they were written to break.")
+    open(os.path.join(root, "MATRIX.md"), "w").write("\n".join(rows) + "\n")
 
 if __name__ == "__main__":
     main()
